@@ -84,9 +84,20 @@ static int count_big(int n)
 	static const int q[] = {2, 9, 17}, t[] = {1, 2, 3, 8, 9, 11, 16, 17};
 	return g_tier_q ? in_set(n, q, 3) : in_set(n, t, 8);
 }
+static int size_sparse(int sz)
+{
+	static const int q[] = {32, 40, 257, 4097}, t[] = {31, 32, 33, 40, 48, 64, 80, 129, 257, 1025, 4097};
+	return g_tier_q ? in_set(sz, q, 4) : in_set(sz, t, 11);
+}
 static int max_any_size(void) { return g_tier_q ? 8197 : 16385; }
 static int is_group(int sz, int n, int p, int c)
 {
+	if (p == 3) {
+		if (!size_sparse(sz)) return 0;
+		if (g_kid == 0) return n == 1 && c == 0;
+		if (g_kid <= 2) return n >= 1 && n <= 3 && c == 0;
+		return n == 1 && c == (field_bits() == 8 ? 142 : 9);
+	}
 	if (is_big(sz)) {
 		if (!size_big(sz) || p != 2) return 0;
 		if (g_kid == 0) return n == 1 && c == 0;
@@ -107,7 +118,7 @@ static int n_buf(int n) { return n_dst(n) + n_src(n); }
 /* alignment sequences: 0 = every vector of (0..7)^nb, 1 = uniform, 2 = uniform then staggered */
 static int al_scheme(int sz, int n, int p, int c)
 {
-	if (is_big(sz)) return 3;
+	if (is_big(sz) || p == 3) return 3;
 	if (p == 1 && g_tier_q) return 1;
 	if (g_kid >= 3 && !const_a(c)) return 2;
 	return n_buf(n) <= 3 ? 0 : 2;
@@ -132,6 +143,7 @@ static unsigned byte_of(int p, int i, int j)
 {
 	if (p == 0) return (unsigned)(37 * i + 11 * j + 5) % 256u;
 	if (p == 2) return (unsigned)(37 * i + 29 * (i / 251) + 11 * j + 5) % 256u;
+	if (p == 3) return ((i / 16) % 3 == 1) ? 0u : (unsigned)(37 * i + 11 * j + 5) % 256u;
 	return (unsigned)((i + 1) * (j + 3) * 167 + i * i * 13 + 91) % 256u;
 }
 static unsigned content(int p, int i, int j) { unsigned b = byte_of(p, i, j); return g_kid == 5 ? b % 16u : b; }
@@ -330,9 +342,9 @@ int main(int argc, char **argv)
 	if (getenv("KD_ONLY") && sscanf(getenv("KD_ONLY"), "%d,%d,%d,%d", &only[0], &only[1], &only[2], &only[3]) == 4) have_only = 1;
 	long cap = 0;
 	for (int sz = 0; sz <= max_any_size(); sz++) {
-		if (is_big(sz) && !size_big(sz)) continue;
+		if (is_big(sz) && !size_big(sz) && !size_sparse(sz)) continue;
 		for (int n = 0; n <= 31; n++)
-			for (int p = 0; p <= 2; p++)
+			for (int p = 0; p <= 3; p++)
 				for (int c = 0; c < 256; c++) {
 					if (!is_group(sz, n, p, c)) continue;
 					if (have_only ? !(sz == only[0] && n == only[1] && p == only[2] && c == only[3]) : (sz % g_parts != g_part)) continue;
